@@ -187,9 +187,10 @@ theorem C02_wrappers_are_source (C : WC) (s : OSt) :
         run C Generated.WrapProg.TraitChangeNotifyWrapper_notify_function_listener
             [.self, .object, .name, .id C.old, .id C.new] s
           = ofWrapper (callWrapper C.E C.t C.n C.loc C.old C.new s)
-        ∧ run C Generated.WrapProg.TraitChangeNotifyWrapper_notify_method_listener
-            [.self, .object, .name, .id C.old, .id C.new] s
-          = ofWrapper (callWrapper C.E C.t C.n C.loc C.old C.new s))
+        ∧ (∀ k, C.wrapName = some k →
+            run C Generated.WrapProg.TraitChangeNotifyWrapper_notify_method_listener
+              [.self, .object, .name, .id C.old, .id C.new] s
+            = ofWrapper (callWrapper C.E C.t C.n C.loc C.old C.new s)))
     ∧ run C Generated.WrapProg.TraitChangeNotifyWrapper_call [.self, .object, .name, .id C.old, .id C.new] s
         = ofWrapper (callWrapper C.E C.t C.n C.loc C.old C.new s)
     ∧ run C Generated.WrapProg.TraitChangeNotifyWrapper_dispatch_change_event
@@ -199,9 +200,21 @@ theorem C02_wrappers_are_source (C : WC) (s : OSt) :
           = ofWrapper (callWrapper C.E C.t C.n C.loc C.old C.new s)) :=
   ⟨Lemmas.WrapSource.change_accepted_is_source C C.old C.new s, Lemmas.WrapSource.prevent_event_is_source C s,
    Lemmas.WrapSource.static_call_is_source C s,
-   fun h => ⟨Lemmas.WrapSource.notify_function_is_source C s h, Lemmas.WrapSource.notify_method_is_source C s h⟩,
+   fun h => ⟨Lemmas.WrapSource.notify_function_is_source C s h,
+             fun k hk => Lemmas.WrapSource.notify_method_is_source C s h k hk⟩,
    Lemmas.WrapSource.dynamic_call_is_source C s, Lemmas.WrapSource.dispatch_change_event_is_source C s,
    Lemmas.WrapSource.observe_call_is_source C s⟩
+
+open TraitsVerif.Model.PyW in
+/-- `TraitChangeNotifyWrapper.equals` — which registered wrapper stands for a handler given to
+`on_trait_change(handler, …)` (duplicate registration, `remove=True`) — is the interpretation of its source: the
+wrapper itself; for a bound method the same method name and the SAME listener object, by identity (two distinct
+listener objects that compare equal are two handlers, which is what the model's handler numbering assumes: every
+registered handler is called exactly once per real change); otherwise a function wrapper for that very function. -/
+theorem C02_wrapper_equals_is_source (C : WC) (s : OSt) :
+    run C Generated.WrapProg.TraitChangeNotifyWrapper_equals [.self, Lemmas.WrapSource.candVal C.cand] s
+      = (.ok (.bool (Lemmas.WrapSource.equalsSpec C)), s) :=
+  Lemmas.WrapSource.equals_is_source C s
 
 /-! ### Exactly once -/
 
